@@ -29,7 +29,7 @@ RULE = ("cases = interleaved histories of construct/run operations of 2..4 DDLPa
         "for scripts of <= 3 statements, seeded samples for 3-4 threads; (3) free-running stress, 8-16 threads, "
         "sys.setswitchinterval(1e-6); (4, thorough) line-level sleep(0) injection in parser.py / ddl_parser.py through sys.monitoring. "
         "Non-trivial = a history with >= 2 live objects; distinct = distinct schedule (operation order / yield-point trace)."
-        " Added after seeded defects: twin specs (same text, different silent / normalize_names / debug / input.regex), a spec that alters a table only another spec defines.")
+        " Added after seeded defects: twin specs (same text, different silent / normalize_names / debug / input.regex), a spec that alters a table only another spec defines, word echo (58 statement keywords first met as names in 22 name positions by other objects, then used as keywords).")
 ASSUMPTIONS = ["schedules are enumerated at statement granularity; finer interleavings are only sampled (free-running and line-level injection)",
                "CPython with the GIL (no claim about free-threaded builds)"]
 MIN_EVENTS = {"run_return": 200}
@@ -99,6 +99,42 @@ def solo_references():
                            env=dict(os.environ))
         refs.append(json.loads(r.stdout.strip().splitlines()[-1])[0])
     return refs
+
+
+def solo_reference_of(spec):
+    """one spec constructed and run as the only use of the package in a fresh interpreter"""
+    code = ("import json, sys\nfrom simple_ddl_parser import DDLParser\ns = json.loads(sys.stdin.read())\n"
+            "try:\n    out = ['ok', DDLParser(s['ddl'], **s.get('ctor', {})).run(**s.get('run', {}))]\n"
+            "except Exception as e:\n    out = ['exc', type(e).__name__]\nprint(json.dumps(out))\n")
+    r = subprocess.run([sys.executable, "-B", "-c", code], input=json.dumps(spec), capture_output=True, text=True, timeout=120, env=dict(os.environ))
+    return json.loads(r.stdout.strip().splitlines()[-1])
+
+
+def word_echo(ctx, word, use, mode, how):
+    """some objects meet `word` where a name is expected; another object that uses it as a keyword must read it as if it were alone"""
+    from vf.gen import kwuses
+    spec = {"ddl": use + "\n", "ctor": {"silent": True}, "run": ({"output_mode": mode} if mode else {})}
+    ref = solo_reference_of(spec)
+    ctx.obs["solo_references"] += 1
+    if ref[0] != "ok" or not ref[1]:
+        ctx.inconclusive_because("keyword-use script for %s yields nothing alone" % word)
+        return
+    w = kwuses.spell(word, how)
+    for ti, tmpl in enumerate(kwuses.IDENT_USES):
+        ctx.evaluated()
+        ctx.nontrivial_case(digest("echo|%s|%s|%d" % (word, how, ti)))
+        a_spec = {"ddl": tmpl.format(W=w) + "\n", "ctor": {"silent": True, "normalize_names": bool(ti % 2)}}
+        early = construct(spec) if ti % 3 == 0 else None          # the keyword user may exist before the name user runs
+        try:
+            do_run(construct(a_spec), a_spec)
+        except Exception:
+            pass                                                  # the name user's own fate is not the subject
+        got = do_run(early if early is not None else construct(spec), spec)
+        ctx.obs["word_echo_pairs"] += 1
+        if got != ref:
+            ctx.violation("keyword_reading_depends_on_names_other_objects_saw", {"gen": "word_echo", "word": word, "spelling": how, "name_user": a_spec, "keyword_user": spec},
+                          {"observed": short(got, 300), "alone": short(ref, 300)})
+            return
 
 
 def do_run(p, spec):
@@ -259,6 +295,10 @@ def with_line_injection(ctx, refs, seed):
 
 
 def check_case(ctx, case):
+    if case.get("gen") == "word_echo":
+        from vf.gen import kwuses
+        use, mode = kwuses.USES[case["word"]]
+        return word_echo(ctx, case["word"], use, mode, case["spelling"])
     refs = solo_references()
     missing = sched.install()
     g = case.get("gen")
@@ -352,6 +392,14 @@ def run_shard(ctx):
         rng.shuffle(schedule)
         sched_case(ctx, refs, idxs, schedule, fine=True)
         ctx.obs["fine_grained_schedules"] += 1
+    # (4) word echo: every statement keyword first met as a NAME by other objects, then used as a keyword
+    from vf.gen import kwuses
+    jj = 0
+    for word, (use, mode) in sorted(kwuses.USES.items()):
+        for how in (("lower", "upper") if ctx.tier == "quick" else ("lower", "upper", "cap")):
+            jj += 1
+            if ctx.mine(jj):
+                word_echo(ctx, word, use, mode, how)
     # (3) free-running stress
     if ctx.tier == "quick":
         stress(ctx, refs, 8, 10, "free_running")
